@@ -243,7 +243,14 @@ def run(ctx):
     for nm in ("normalize_bins", "normalize_all"):
         f_ = HC.methods[nm]
         t_ = U(f_.node)
-        sel = "col = self if inplace else self.copy()" in t_
+        # per decision on `inplace`, what `col` is bound to (conditional-expression and if/else forms are one normal form)
+        bound = {}
+        for p_ in function_paths(f_.node):
+            dec = [s_[2] for s_ in p_ if s_[0] == "cond" and U(s_[1]) == "inplace"]
+            for s_ in p_:
+                if s_[0] == "stmt" and isinstance(s_[1], ast.Assign) and U(s_[1].targets[0]) == "col" and dec:
+                    bound.setdefault(dec[0], set()).add(U(s_[1].value))
+        sel = bound == {True: {"self"}, False: {"self.copy()"}}
         rets_ = [U(n.value) for n in ast.walk(f_.node) if isinstance(n, ast.Return)]
         lp_ = [n for n in ast.walk(f_.node) if isinstance(n, ast.For) and U(n.iter) == "col.histograms"]
         okm = bool(lp_) and (nm != "normalize_all" or any(isinstance(b, ast.Expr) and U(b.value) == f"{U(lp_[0].target)}.normalize(inplace=True)" for b in lp_[0].body))
